@@ -607,8 +607,14 @@ func (self *Core) runInstruction(instruction compiler.Instruction) *value.VmInte
 			Function:           i.ValueString,
 			InstructionPointer: uint(i.ValueInt),
 		})
+		self.exceptionCatchStates = append(self.exceptionCatchStates, catchState{
+			callStackSize: len(self.CallStack),
+			stackSize:     len(self.Stack),
+			memoryPointer: self.MemoryPointer,
+		})
 	case compiler.Opcode_PopTryLabel:
 		self.ExceptionCatchLabels = self.ExceptionCatchLabels[:len(self.ExceptionCatchLabels)-1]
+		self.exceptionCatchStates = self.exceptionCatchStates[:len(self.exceptionCatchStates)-1]
 	case compiler.Opcode_Member:
 		i := instruction.(compiler.OneStringInstruction)
 
